@@ -27,7 +27,7 @@ fn coq_praw(pf: &PageFile, id: u64) -> String {
 }
 
 /// what the harness hands to the Coq model: roots + page graph of a closed database
-fn coq_case(dir: &Path, impl_ok: bool, marked: &[u64]) -> (String, usize) {
+fn coq_case(dir: &Path, need_cert: bool, impl_ok: bool, marked: &[u64]) -> (String, usize) {
     let pf = PageFile::read(&ndb_path(dir));
     let roots = wal_roots(&wal_path(dir));
     let meta = &pf.page(0)[..92];
@@ -43,9 +43,9 @@ fn coq_case(dir: &Path, impl_ok: bool, marked: &[u64]) -> (String, usize) {
     // pages whose bit is set beyond the end of the file cannot be read: leave them out (reading them fails in both)
     let pages = coq_list(&ids, |i| coq_praw(&pf, *i));
     (format!(
-        "{{| meta_bytes := {}; cat_entries := {}; wal_props := {}; wal_stats := {}; wal_segs := {}; pages := {}; impl_ok := {}; impl_marked := {} |}}",
+        "{{| meta_bytes := {}; cat_entries := {}; wal_props := {}; wal_stats := {}; wal_segs := {}; pages := {}; need_cert := {}; impl_ok := {}; impl_marked := {} |}}",
         coq_bytes(meta), cat_s, coq_n(roots.properties_root as u128), coq_n(roots.stats_root as u128),
-        coq_list(&roots.segments, |x| coq_n(*x as u128)), pages, coq_bool(impl_ok), coq_list(marked, |x| coq_n(*x as u128))), ids.len())
+        coq_list(&roots.segments, |x| coq_n(*x as u128)), pages, coq_bool(need_cert), coq_bool(impl_ok), coq_list(marked, |x| coq_n(*x as u128))), ids.len())
 }
 
 fn follow_up_tx(n: u32) -> Tx {
@@ -86,7 +86,7 @@ fn check_one(work: &Path, ops: &[Op], malform: Option<u64>, r: &mut Rng) -> Resu
     let vac = guarded(|| nervusdb::vacuum(base_path(&b)).map_err(|e| e.to_string())).unwrap_or_else(|p| Err(format!("panic: {p}")));
     let vacuum_ok = vac.is_ok();
     let marked: Vec<u64> = if vacuum_ok { PageFile::read(&ndb_path(&b)).allocated().into_iter().filter(|i| *i >= 2).collect() } else { vec![] };
-    let (case, npages) = coq_case(&src, vacuum_ok, &marked);
+    let (case, npages) = coq_case(&src, malform.is_none(), vacuum_ok, &marked);
     let mut out = Outcome { fail: None, vacuum_ok, marked };
     if malform.is_some() {
         return Ok((out, case, npages));
@@ -194,7 +194,7 @@ fn main() {
             let style = r.below(10);
             let cfg = GenCfg {
                 ops: 4 + r.below(22) as usize,
-                big_nodes: if style == 0 { 300 + r.below(500) as usize } else { 0 }, // stays below one idmap page unless style 0 pushes it over
+                big_nodes: if style == 0 { 150 + r.below(250) as usize } else { 0 }, // node table stays within its first page (growth past it is C18)
                 deletes: r.chance(1, 2),
                 vectors: r.chance(1, 2),
                 indexes: r.chance(2, 3),
